@@ -2,7 +2,7 @@
    name.  This is what is extracted; the correspondence harness calls these
    and nothing else. *)
 From AK Require Import Base.Prelude Base.Sx Bytes.Text Bytes.FabHeader Bytes.BinFile
-  Reader.Select Reader.BoxRead Reader.Level Plotfile.TextHeader Taste.Taste.
+  Reader.Select Reader.BoxRead Reader.Level Plotfile.TextHeader Taste.Taste Writers.Colander.
 
 Definition as_Zs := as_list as_Z.
 Definition as_optZ := as_opt as_Z.
@@ -269,6 +269,20 @@ Definition e_taste_all (s : sx) : sx :=
   | _ => bad_request
   end.
 
+(* ---- C05: colander on a directory image ---- *)
+Definition enc_ldir (nd : bytes * ldir) : sx :=
+  SL [SB (fst nd); Sx.of_opt enc_text (ld_cellh (snd nd)); enc_disk (ld_files (snd nd))].
+Definition enc_pdisk (d : pdisk) : sx :=
+  SL [Sx.of_opt enc_text (pd_header d); of_list enc_ldir (pd_dirs d)].
+
+Definition e_colander (s : sx) : sx :=
+  match s with
+  | SL [vars; limit; d] =>
+      req (do v <- as_Bs vars; do l <- as_optZ limit; do d <- dec_pdisk d; Some (v, l, d))
+          (fun '(v, l, d) => of_result enc_pdisk (colander v l d))
+  | _ => bad_request
+  end.
+
 Definition entries : list (string * (sx -> sx)) :=
   [ ("getitem", e_getitem);
     ("iter_all", e_iter_all);
@@ -284,7 +298,8 @@ Definition entries : list (string * (sx -> sx)) :=
     ("open_header", e_open_header);
     ("parse_cellh", e_parse_cellh);
     ("taste", e_taste);
-    ("taste_all", e_taste_all)
+    ("taste_all", e_taste_all);
+    ("colander", e_colander)
   ]%string.
 
 Fixpoint find_entry (name : string) (l : list (string * (sx -> sx))) : option (sx -> sx) :=
